@@ -234,7 +234,10 @@ impl CoverageFormat2<'_> {
             .ok()
             .map(|idx| {
                 let rec = &self.range_records()[idx];
-                rec.start_coverage_index() + gid.to_u16() - rec.start_glyph_id().to_u16()
+                // Subtract first: the sum `start_coverage_index + gid` can exceed
+                // u16::MAX even when the resulting coverage index is in range.
+                rec.start_coverage_index()
+                    .wrapping_add(gid.to_u16() - rec.start_glyph_id().to_u16())
             })
     }
 
